@@ -13,7 +13,14 @@ def run(c):
     L = 4 if c.thorough else 3
     seqs = oe.fam_sequential(L)
     fails = oe.fam_failures(6)
-    fams = [("sequential", seqs, None), ("failures", fails, None), ("start_race", oe.fam_start_race(), 2 if c.thorough else 1)]
+    keys = oe.fam_watch_keys(3)
+    if not c.thorough:
+        import random
+
+        random.Random(c.seed).shuffle(keys)
+        keys = keys[:400]
+    fams = [("sequential", seqs, None), ("failures", fails, None), ("watch keys (spellings of path / recursive / filter)", keys, None),
+            ("start_race", oe.fam_start_race(), 2 if c.thorough else 1)]
     oe.run_families(c, "C13", fams, bound=1, random_n=2000 if c.thorough else 200)
     c.cov["exhaustive"] = True
     c.cov["rule"] = ("every sequentially valid API call sequence up to length %d over 2 watches x 2 handlers with a black-box "
